@@ -873,7 +873,7 @@ func c07BlacklistedCarriers(r *Rec) {
 				return
 			}
 		}
-		carriers = len(gk.GetNetworkActorsByAbsoluteWhitelistPermission(ctx, perm))
+		carriers = carriersByRule(ctx, gk, perm, w.addrs)
 		quorum = gk.GetNetworkProperties(ctx).VoteQuorum.String()
 		cur, _ := gk.GetNetworkProperty(ctx, govtypes.MinTxFee)
 		m, err := govtypes.NewMsgSubmitProposal(w.addrs[6], "t", "d", govtypes.NewSetNetworkPropertyProposal(govtypes.MinTxFee, govtypes.NetworkPropertyValue{Value: cur.Value + 3}))
@@ -933,4 +933,32 @@ func c07BlacklistedCarriers(r *Rec) {
 	r.Op(fmt.Sprintf("gov local-tally q=%s accs=%s role=- y=1 n=0 a=0 v=0 o=0", quorum, strings.Join(accs, ",")), resName(result))
 	r.Count(fmt.Sprintf("blacklisted-carriers:%d-carriers:%s", carriers, resName(result)))
 	r.Case(label, true)
+}
+
+// carriersByRule: how many of the given addresses carry `perm` in a whitelist - their own or one of their roles' -
+// blacklists notwithstanding. Decided here from the actor and role records, not by asking the keeper function the gov
+// EndBlocker uses for its quorum denominator.
+func carriersByRule(ctx sdk.Context, gk govkeeper.Keeper, perm govtypes.PermValue, addrs []sdk.AccAddress) int {
+	n := 0
+	seen := map[string]bool{}
+	for _, a := range addrs {
+		if seen[string(a)] {
+			continue
+		}
+		seen[string(a)] = true
+		actor, ok := gk.GetNetworkActorByAddress(ctx, a)
+		if !ok {
+			continue
+		}
+		carries := actor.Permissions != nil && actor.Permissions.IsWhitelisted(perm)
+		for _, role := range actor.Roles {
+			if ps, ok := gk.GetPermissionsForRole(ctx, role); ok && ps.IsWhitelisted(perm) {
+				carries = true
+			}
+		}
+		if carries {
+			n++
+		}
+	}
+	return n
 }
